@@ -154,7 +154,7 @@ class C09(Scenario):
     prop = "C09"
     level = "fault_enumeration"
     profiles = ["document", "delivery"]
-    budgets = {"quick": 1200, "thorough": 20000}
+    budgets = {"quick": 8000, "thorough": 150000}
     wall_caps = {"quick": 110, "thorough": 1500}
     block = 16
     rule = ("profile `document`: one run = one base state (seeded tree, fills, optional merge) whose replicas by copy(), "
